@@ -122,7 +122,7 @@ theorem mly_periodic (r : Rule) (p : Inst) (hr : WfRule r) (hp : WfInst p) (hy :
 
 theorem kindOk_of_same {p x : Inst} (h : SameKind p x) : KindOk p x := h.2.2.2.2.2
 
-theorem mly_targetHyp (r : Rule) (p : Inst) (nti : Nat) (hr : WfRule r) (hp : WfInst p) (hs : SeedOk r p)
+theorem mly_targetHyp (r : Rule) (p : Inst) (nti : Nat) (hr : WfRule r) (hp : WfInst p)
     (hsup : MlySup r) (hy : 1901 ≤ p.y) (hf : MlyFirst r p) :
     TargetHyp (mkFillCtx r p nti) mlyTries (fun q : Nat × Int => q.1) (mE r p nti)
       (fun q => mlyNext r.mon r.inter 12 q.1 q.2) (mReach r p) (mG r p) (mTarget r p) (mGi r p) := by
@@ -167,7 +167,7 @@ theorem mly_targetHyp (r : Rule) (p : Inst) (nti : Nat) (hr : WfRule r) (hp : Wf
     have hq2 : q.1 ≤ 2099 := by have := hx.2.2.2; omega
     refine ⟨hq2, ?_⟩
     obtain ⟨b1, _, _, b4, b5⟩ := (mlyInst_iff r p x).1 hx.1
-    obtain ⟨t1, t2, t3⟩ := enum_of_exp hp hs (kindOk_of_same b1) b5
+    obtain ⟨t1, t2, t3⟩ := enum_of_exp hp (kindOk_of_same b1) b5
     exact (mem_mE_iff r p nti hr hp hsup q.1 q.2 ⟨by omega, hq2⟩ ⟨h1, h2⟩ x).2
       ⟨e1, e2, b1.2.2.1, b1.2.2.2.1, b4, b1.2.2.2.2.1, t1, t2, t3⟩
   · -- tests
